@@ -296,3 +296,50 @@ PLANS["C14"] = {
     "assumptions": ["length fields of the descriptor are not compared (CMAC rewrites msg_len_to_hash into bits; the "
                     "property does not list lengths)", "u.SNOW_V_AEAD.reserved is documented scratch space"],
 }
+
+PLANS["C15"] = {
+    "level": "exploration",
+    "runs": _simple("reinit", 3000, 150000),
+    "cov_class": "C15",
+    "rule": ("cases = re-initialisation experiments: a random history H1 (job or burst API, parking-heavy suites, "
+             "0..40 jobs) is cut after a sampled prefix so that jobs are still in flight, then init_mb_mgr_X of a "
+             "sampled configuration (same or other architecture; flags stay those of the allocation) is called on "
+             "the same memory; the manager must be empty (queue size 0, get_completed/flush NULL, error code 0), no "
+             "job of H1 may ever be handed back, and a follow-up history H2 must give call by call the same API trace "
+             "(which job came back at which call, status, queue size, output hash - every output also compared with "
+             "the reference model) as on a freshly allocated manager of the new configuration. distinct = distinct "
+             "(old configuration, new configuration, jobs in flight bucket, API of H1) tuples; non-trivial = at least "
+             "one job in flight at the re-initialisation."),
+    "floors": {"quick": {"reinits": 2500, "jobs_in_flight_at_reinit": 10000, "cov:C15": 300}},
+    "assumptions": ["feature flags of a manager are fixed by alloc_mb_mgr(flags); only the init function varies"],
+}
+
+
+def _c16(tier, seed):
+    return [{"engine": "crash", "args": [], "cases": 224 if tier == "quick" else 2800, "shards": N,
+             "timeout": 1800 if tier == "quick" else 7200, "aux_bins": {"IMBV_CRASH_EXEC": ("base", True)}}]
+
+
+PLANS["C16"] = {
+    "level": "fault_enumeration",
+    "runs": _c16,
+    "cov_class": "crash_point",
+    "rule": ("fault enumeration over crash points: for each sampled history (10..47 jobs of 19 cipher, 18 hash, 4 "
+             "AEAD suites and chained cipher+HMAC pairs, mixed lengths, random get_completed/flush calls; manager, "
+             "buffers, keys, IVs and tags all inside one memfd arena mapped at a fixed address) EVERY crash point c "
+             "= 1..number of scheduler calls is exercised: a primary process runs the history up to call c and is "
+             "killed with SIGKILL; a second process maps the arena, calls imb_set_pointers_mb_mgr(ptr, flags, 0) and "
+             "flushes. Oracle: every job in flight (per the FIFO model at the crash) is handed back exactly once, in "
+             "submission order, in its own slot, COMPLETED, with output and tag equal to the reference model; jobs "
+             "collected before the crash never come back; queue size matches before and is 0 after; a follow-up "
+             "episode of 12 verified jobs runs on the re-attached manager. Secondary kinds: same process (control), "
+             "forked child, fork+exec of the PIE/shared-library build (library load address recorded on both sides). "
+             "quick: kinds rotate over crash points; thorough: all three kinds at every point. distinct = distinct "
+             "(variant, history, crash point, kind) points and (variant, last call, in-flight bucket, kind) states; "
+             "non-trivial = at least one job in flight at the crash."),
+    "floors": {"quick": {"crash_points": 8000, "points_with_inflight": 7000, "jobs_recovered": 80000,
+                         "exec_secondaries_other_load_address": 2000, "cov:crash_state": 300}},
+    "assumptions": ["a crash inside a library call (manager state half-updated) is outside the property ('between "
+                    "API calls')", "CUSTOM cipher/hash jobs (function pointers supplied by the dead process) are not "
+                    "part of the histories"],
+}
